@@ -73,7 +73,7 @@ def judge_spans(case, res):
         if w is not None:
             byword.setdefault(w, []).append((a, b))
     for w, spans in byword.items():
-        occ = [m.start() for m in re.finditer(re.escape(w), txt)]
+        occ = [m.start() for m in re.finditer(re.escape(w) + r'(?![a-z])', txt)]     # (not as the beginning of a longer word)
         if len(occ) != len(spans):
             return ['cleveref: %d uses of the reference generating %r, but the word appears %d times' % (len(spans), w, len(occ))]
         for i, (a, b) in zip(occ, spans):
